@@ -4,9 +4,9 @@ from __future__ import annotations
 import numpy as np
 from hypothesis import strategies as st
 
-from pyoma2.algorithms import SSIcov, SSIdat, pLSCF
+from pyoma2.algorithms import SSIcov, SSIcov_MS, SSIdat, SSIdat_MS, pLSCF, pLSCF_MS
 from pyoma2.functions import gen
-from pyoma2.setup import SingleSetup
+from pyoma2.setup import MultiSetup_PreGER, SingleSetup
 
 from .. import modal, tables
 from ..core import J, Sub, mac, raised, rng_of, sut
@@ -138,7 +138,7 @@ def judge_function(case):
 @st.composite
 def class_case(draw):
     s = draw(modal.system(1, 3, 2, 4, xi_lo=0.005, xi_hi=0.05, fr_lo=0.03, fr_hi=0.4))
-    alg = draw(st.sampled_from(["SSIcov", "SSIdat", "pLSCF"]))
+    alg = draw(st.sampled_from(["SSIcov", "SSIdat", "pLSCF", "SSIcov", "SSIdat", "pLSCF", "SSIcov_MS", "SSIdat_MS", "pLSCF_MS"]))
     ordmax = draw(st.integers(4, 14))
     return {"sys": s, "alg": alg, "ordmax": ordmax, "ordmin": draw(st.integers(0, ordmax)), "br": draw(st.integers(8, 14)),
             "N": draw(st.integers(1500, 3000)), "seed": draw(st.integers(0, 2**32 - 1)), "noise": draw(st.sampled_from([0.02, 0.2])),
@@ -153,16 +153,25 @@ def judge_class(case):
     j = J()
     S = modal.Sys(case["sys"])
     Y = modal.random_response(S, case["N"], case["seed"], noise=case["noise"])
-    ss = SingleSetup(Y, fs=S.fs)
     sc = {k_: case[k_] for k_ in case.get("keyorder", ["err_fn", "err_xi", "err_phi"])}  # the user's own key order
     an = case["alg"]
+    if an.endswith("_MS") and S.nch < 3:
+        an = an[:-3]
+    ms = an.endswith("_MS")
+    if ms:
+        # two setups sharing channel 0 as reference
+        chans = [[0] + list(range(1, 1 + (S.nch - 1) // 2)), [0] + list(range(1 + (S.nch - 1) // 2, S.nch))]
+        ss = MultiSetup_PreGER(fs=S.fs, ref_ind=[[0], [0]], datasets=[modal.random_response(S, case["N"], case["seed"] + i_, noise=case["noise"], channels=c_) for i_, c_ in enumerate(chans)])
+    else:
+        ss = SingleSetup(Y, fs=S.fs)
     j.tag(an)
     unc = an == "SSIcov" and bool(case.get("unc"))
-    if an == "pLSCF":
-        alg = pLSCF(name="a", ordmax=case["ordmax"], ordmin=case["ordmin"], nxseg=case["nxseg"], sc=sc)
+    if an.startswith("pLSCF"):
+        alg = (pLSCF_MS if ms else pLSCF)(name="a", ordmax=case["ordmax"], ordmin=case["ordmin"], nxseg=case["nxseg"], sc=sc)
     else:
-        cls = SSIcov if an == "SSIcov" else SSIdat
-        kw = dict(name="a", br=case["br"], ordmax=min(case["ordmax"], 10) if unc else case["ordmax"], ordmin=min(case["ordmin"], 10) if unc else case["ordmin"], sc=sc)
+        cls = {"SSIcov": SSIcov, "SSIdat": SSIdat, "SSIcov_MS": SSIcov_MS, "SSIdat_MS": SSIdat_MS}[an]
+        omax = min(case["ordmax"], 10) if unc else (min(case["ordmax"], case["br"]) if ms else case["ordmax"])  # one reference: order <= br
+        kw = dict(name="a", br=case["br"], ordmax=omax, ordmin=min(case["ordmin"], omax), sc=sc)
         if unc:
             # a covariance limit that really rejects poles: a quantile of the variances of a first, unrestricted run
             probe = SSIcov(name="p", calc_unc=True, nb=10, hc=dict(conj=True, xi_max=0.1, mpc_lim=0.7, mpd_lim=0.3, cov_max=1e300), **{k_: v for k_, v in kw.items() if k_ != "name"})
@@ -191,19 +200,19 @@ def judge_class(case):
     r = sut(ss.run_by_name, "a")
     if not j.check(not raised(r), "class-run-raises", lambda: f"{r!r}"):
         return j
-    if an != "pLSCF":
+    if not an.startswith("pLSCF"):
         case = dict(case, ordmax=kw["ordmax"], ordmin=kw["ordmin"])
     res = alg.result
     Fn, Xi, Phi, Lab = np.asarray(res.Fn_poles), np.asarray(res.Xi_poles), np.asarray(res.Phi_poles), np.asarray(res.Lab)
     C = Fn.shape[1]
-    if an == "pLSCF":
+    if an.startswith("pLSCF"):
         j.check(C == case["ordmax"], "class-columns", lambda: f"{C} columns for ordmax {case['ordmax']}")
         cmin, cmax = case["ordmin"], case["ordmax"] - 1
     else:
         j.check(C == case["ordmax"] + 1, "class-columns", lambda: f"{C} columns for ordmax {case['ordmax']}")
         cmin, cmax = case["ordmin"], case["ordmax"]
     exp = model_labels(Fn, Xi, Phi, cmin, min(cmax, C - 1), case["err_fn"], case["err_xi"], case["err_phi"])
-    if an == "pLSCF" and cmin >= 1:
+    if an.startswith("pLSCF") and cmin >= 1:
         exp[:, cmin - 1] = np.where(exp[:, cmin - 1] == 0, -1, exp[:, cmin - 1])  # order-value reading of ordmin: not judged
     compare_labels(j, Lab, exp, Fn, "class")
     both = bool((Lab == 1).any() and ((Lab == 0) & np.isfinite(Fn)).any())
